@@ -450,7 +450,7 @@ def _why(path) -> Tuple[str, str]:
   return '/'.join(parts), parts[-1], parts[-1].split('.')[-1]
 
 
-def run_universe(chk, u: str, timeout: int = 1500) -> Dict[str, int]:
+def run_universe(chk, u: str, timeout: int = 1500, only_sig: Dict[str, Any] = None) -> Dict[str, int]:
   """Runs the three steps for universe `u`; reports violations through chk; returns counters."""
   from . import tlc   # pylint: disable=import-outside-toplevel
   data, r = tlc.export_json('ValueSpecExport', f'C04_export_{u}.cfg', name=f'c04-export-{u}', timeout=timeout)
@@ -516,6 +516,8 @@ def run_universe(chk, u: str, timeout: int = 1500) -> Dict[str, int]:
           sig['ref'] = item[1]
           sig['value_type'] = Vs[item[0] - 1]['t']
         det = {'universe': u, 'spec': describe(a), 'value': show(item[0]), 'item': list(item)}
+      if only_sig is not None and sig != only_sig:
+        continue
       chk.violation(sig, det)
       chk.count('law_violation_instances')
 
